@@ -260,6 +260,31 @@ def run(ctx):
             except Exception as ex:
                 ctx.exception("roundtrip-p", f"{name}: {dname} pressures raised", ex, {"copy": name, "dtype": dname})
 
+        # ---- altitudes that are not doubles: whole-number altitudes (the surface, the layer boundaries, the
+        #      model top) arrive as integers, table columns as float32. The pressure of such an altitude is
+        #      the pressure of the same number as a double, and z -> P -> z closes to 1e-6 km.
+        zi = np.array([0, 11, 20, 32, 47, 51, 71, 85, 120], dtype=np.int64)
+        z32 = np.concatenate([np.linspace(0, 120, 2001), rng.uniform(0, 120, 2000)]).astype(np.float32)
+        for dname, zarr in (("int64", zi), ("float32", z32), ("uint8", zi.astype(np.uint8))):
+            try:
+                ctx.count("dtype", zarr.size)
+                pa = np.asarray(pz(zarr), dtype=np.float64)
+                pd_ = np.asarray(pz(zarr.astype(np.float64)))
+                zb_ = np.asarray(zp(pa), dtype=np.float64)
+                e1 = np.abs(pa - pd_) / pd_
+                e2 = np.abs(zb_ - zarr.astype(np.float64))
+                if not (np.all(e1 <= 1e-6) and np.all(e2 <= ZTOL)):
+                    i = int(np.argmax(np.maximum(e1 / 1e-6, e2 / ZTOL)))
+                    ctx.violation("roundtrip-z", f"{name}: {dname} altitude {zarr[i]!r} km -> pressure {pa[i]!r} Pa (the same number as a double gives {pd_[i]!r}) -> altitude {zb_[i]!r} km: round-trip error {e2[i]:.2e} km", {"copy": name, "dtype": dname, "z": float(zarr[i])})
+                for sc in (0, 11, 120, np.int64(47), np.float32(100.3), True):
+                    ps_ = float(np.asarray(pz(sc)))
+                    if not abs(ps_ - float(np.asarray(pz(float(sc))))) <= 1e-6 * ps_:
+                        ctx.violation("scalar-path", f"{name}: altitude {sc!r} ({type(sc).__name__}) gives {ps_!r} Pa, the same number as a double {float(np.asarray(pz(float(sc))))!r} Pa", {"copy": name, "dtype": type(sc).__name__})
+            except PostBroken:
+                ctx.violation("scalar-path", f"{name}: {dname} altitudes: result shape differs from input shape", {"copy": name, "dtype": dname})
+            except Exception as ex:
+                ctx.exception("roundtrip-z", f"{name}: {dname} altitudes raised", ex, {"copy": name, "dtype": dname})
+
     # copies agree bit for bit
     if len(results) == 2:
         (n1, r1), (n2, r2) = results.items()
